@@ -1159,6 +1159,10 @@ fn stress_one(sc: &Value, idx: u64, seed: u64, out: &mut NdjsonOut) -> Result<()
             b.wait();
             for _ in 0..nops {
                 jitter(&mut rng);
+                if cap <= 3 && nprod >= 3 {
+                    // give the consumer a chance: a long unobserved overflow history makes trace validation expensive
+                    std::thread::yield_now();
+                }
                 let mut op = match mix.as_str() {
                     "send" => 0,
                     "try" => 1,
